@@ -124,6 +124,23 @@ CLAIMED["C11"] = dict(
     technique="Lean 4 proof (importer state invariant) + exact correspondence + round-trip oracle",
 )
 
+CLAIMED["C07"] = dict(
+    text="Lean theorems about the model of scan.rs and of lib.rs prettify_meta, for EVERY input text: the scanner terminates (its main "
+         "loop and block-comment loop are well-founded recursions accepted with C07_scan_progress / C07_block_comment_progress), "
+         "returns tokens or a NON-EMPTY error list (C07_scan_result), every token and error location has start <= end and lies on a "
+         "line of the text (C07_scan_locations), and rendering never indexes a missing line for any location ending inside the text "
+         "(C07_render_total, C07_scan_errors_render). PARTIAL: parse.rs, check.rs and compile.rs are not modelled; for them the "
+         "property is explored: hand-written end-of-input texts, every corpus program with prefixes and token deletion / duplication "
+         "/ swap / substitution / insertion, token soup, random characters and perturbed literal strings run through compile() and "
+         "Literal::parse in a worker with a deadline; outcome must be ok or a non-empty error list with well-formed, renderable "
+         "locations. Two recorded findings (resource exhaustion on huge declared sizes and on nesting ~2000 deep).",
+    design_ref="DESIGN.md §6 C07",
+    note="trusted: Lean kernel; Model/Scan.lean (transliteration of scan.rs after repair 3325197 and of prettify_meta) tied by exact "
+         "correspondence of tokens, errors, locations and rendered text on every explored text; Rust's str::chars / str::lines / "
+         "u64 and i64 decimal parsing are modelled, not verified",
+    technique="Lean 4 proof (well-founded recursion + location invariant) + exact correspondence + deadline-guarded exploration",
+)
+
 CLAIMED["C06"] = dict(
     text="(1) Kernel-checked obligation extracted_hashIterSites: the list of HashMap/HashSet iteration sites of /repo/src, REGENERATED "
          "from the source on every run, equals the audited list in which every site carries the reason why its order cannot reach "
